@@ -480,6 +480,10 @@ func (fr *Frame) intrinsic(in ssa.CallInstruction, fn *ssa.Function, full string
 		ex.abstr["time.Now: unconstrained clock value"] = true
 		v, facts := ex.freshVal(fr.st, resultType(c), "now")
 		fr.assumeAll(facts)
+		// ghost: the most recent clock reading made by this function (contracts: lastnow())
+		for i, l := range leavesOf(resultType(c)) {
+			ex.set(fr.st, "GG.lastnow."+l.Path, l.Sort, flatten(v)[i])
+		}
 		return v, true
 	}
 	return Val{}, false
